@@ -1453,9 +1453,17 @@ class PlacementFeasibilityTracker:
     def __init__(self):
         self.recorder = dict()
 
+    @staticmethod
+    def _shape(app):
+        """App shape, qualified by the traits the app (or its allocation)
+        requires: a failure of an app that needs a trait says nothing about
+        apps that do not need it."""
+        constraints, demand = app.shape()
+        return (constraints, app.traits), demand
+
     def feasible(self, app):
         """Checks if it is feasible to satisfy demand."""
-        constraints, demand = app.shape()
+        constraints, demand = self._shape(app)
         if constraints in self.recorder:
             # If demand is >= than recorded failure, placement is not feasible.
             if _all_ge(demand, self.recorder[constraints]):
@@ -1465,7 +1473,7 @@ class PlacementFeasibilityTracker:
 
     def adjust(self, app):
         """Adjust info about failed placement."""
-        constraints, demand = app.shape()
+        constraints, demand = self._shape(app)
         if constraints not in self.recorder:
             self.recorder[constraints] = demand
         else:
